@@ -113,7 +113,13 @@ func HarnessC18Listen() {
 	}
 	b := c18Backend(sub, &c18Pub{}, &finished, false)
 	c18Timeout = nil
-	ctx, cancel := context.WithCancel(context.Background()) // callers 4 and 5 never cancel
+	callerBase := context.Background()
+	if vrt.Bool("caller.context.has.a.later.deadline") {
+		var dc context.CancelFunc
+		callerBase, dc = context.WithTimeout(callerBase, time.Hour) // far beyond ListenForReplyTimeout
+		defer dc()
+	}
+	ctx, cancel := context.WithCancel(callerBase) // callers 4 and 5 never cancel
 	t0 := time.Now()
 	replies, err := b.ListenForNotifications(ctx, BackendListenForNotificationsParams{OperationID: "mine"})
 	vrt.Assert(err == nil, "listening")
